@@ -122,6 +122,23 @@ def encode_message(rng, d):
     return rng.choice([" ", "\t", "  "]) + json.dumps(d, ensure_ascii=False, separators=(",", ":")) + rng.choice([" ", "", "\t "])
 
 
+# well-formed lines at the edge of the domains of the decoders a library may combine (RFC 8259 accepts all of them): a lone
+# surrogate escape (what JSON.stringify emits for text cut inside an emoji), numbers beyond the double range, nesting just
+# beyond 1024 levels
+def edge_lines():
+    deep = "[" * 1040 + "]" * 1040
+    return [
+        '{"jsonrpc":"2.0","method":"notifications/message","params":{"data":"cut \\ud83d"}}',
+        '{"jsonrpc":"2.0","id":41,"result":{"text":"\\ude00 tail","k":"\\ud800x\\udfff"}}',
+        '{"jsonrpc":"2.0","id":"\\ud83d","method":"m"}',
+        '{"jsonrpc":"2.0","id":42,"result":{"v":1e400,"w":-1e400,"x":[1E+999]}}',
+        '{"jsonrpc":"2.0","id":43,"error":{"code":-32000,"message":"m","data":{"big":1e309}}}',
+        '{"jsonrpc":"2.0","method":"deep","params":{"a":' + deep + '}}',
+        '{"jsonrpc":"2.0","id":44,"result":{"a":' + "[" * 1024 + "]" * 1024 + '}}',
+        '[{"jsonrpc":"2.0","method":"in-batch","params":{"t":"\\udbff"}},{"jsonrpc":"2.0","id":45,"result":{"v":1e400}}]',
+    ]
+
+
 def rand_items(rng, nmin=1, nmax=6, junk_p=0.3):
     items = []
     for _ in range(rng.randrange(nmin, nmax + 1)):
